@@ -84,12 +84,23 @@ func (c *declChecker) check() []error {
 			for _, argArg := range descrAtom.Args[1:] {
 				c.checkStringConstant(argArg)
 			}
+		case ast.DescrMode:
+			if len(descrAtom.Args) != len(p.Args) {
+				c.errs = append(c.errs, fmt.Errorf("in decl %v: mode atom %v must have one argument for each of the %d arguments", p, descrAtom, len(p.Args)))
+			}
+		case ast.DescrReflects:
+			if len(p.Args) == 0 {
+				c.errs = append(c.errs, fmt.Errorf("in decl %v: a predicate that reflects a name prefix needs an argument", p))
+			}
 		default:
 			// We ignore unknown descr atoms.
 		}
 	}
 	if c.decl.IsExternal() && len(c.decl.Modes()) != 1 {
 		c.errs = append(c.errs, fmt.Errorf("external predicate must have exactly one mode"))
+	}
+	if c.decl.DeferredPredicate() && len(c.decl.Modes()) == 0 {
+		c.errs = append(c.errs, fmt.Errorf("in decl %v: a deferred predicate must have a mode", p))
 	}
 	if !c.decl.IsSynthetic() && len(expectedArgs) > 0 && len(expectedArgs) != len(p.Args) {
 		c.errs = append(c.errs, fmt.Errorf("missing arg atoms for arguments %v", expectedArgs))
